@@ -142,14 +142,15 @@ theorem expm_hermitian_matrix_exp_eighExact {Afun : List 𝕜 → List 𝕜} {dn
   expm_hermitian_matrix_exp hN hM hH (eighExact_at Afun dnorm v numiter) hX hexp h
 
 /-- **The Hermitian calls return.**  With `eighExact`, `eigh_krylov` and the Hermitian branch of `expm_krylov` return for
-every map, every start vector of positive norm and every `numiter ≥ 1`: the shape checks on the output of
+every map, every norm oracle satisfying its contract, every start vector of positive norm (hence not empty: F11 caps the
+iteration count at `len v`) and every `numiter ≥ 1`: the shape checks on the output of
 `eigh_tridiagonal` never fail. -/
 theorem hermitian_returns_eighExact (Afun : List 𝕜 → List 𝕜) (dnorm : List 𝕜 → ℝ) (dexp : 𝕜 → 𝕜)
-    (dexpm : Mat 𝕜 → Mat 𝕜) {v : List 𝕜} {numiter : Nat} (hpos : 0 < dnorm v) (hm : 1 ≤ numiter)
-    (numeig : Nat) (dt : 𝕜) :
+    (dexpm : Mat 𝕜 → Mat 𝕜) {v : List 𝕜} {numiter : Nat} (hN : NormContract dnorm) (hpos : 0 < dnorm v)
+    (hm : 1 ≤ numiter) (numeig : Nat) (dt : 𝕜) :
     (∃ r, eighKrylov Afun dnorm eighExact v numiter numeig = .ok r) ∧
     ∃ r, expmKrylov Afun dnorm eighExact dexp dexpm v dt numiter true = .ok r := by
-  obtain ⟨⟨alpha, beta, V⟩, hl⟩ := lanczos_isOk Afun dnorm hpos hm
+  obtain ⟨⟨alpha, beta, V⟩, hl⟩ := lanczos_isOk Afun dnorm hpos hm (hN.pos_dim hpos)
   have hE' := eighExact_spec alpha beta
   obtain ⟨h1, _, _, _, hVn⟩ := lanczos_sizes _ _ hl
   constructor
@@ -199,7 +200,7 @@ example : ∃ (Afun : List ℝ → List ℝ) (M : Nat → Nat → ℝ) (dnorm : 
       simp only [RCLike.re_to_real]
       nlinarith [sq_nonneg (a + b)]
   obtain ⟨⟨ws, u⟩, h⟩ := (hermitian_returns_eighExact (matvec A) (sqrtNorm (𝕜 := ℝ)) id id (v := [1, 0]) (numiter := 2)
-    ((sqrtNorm_contract.pos_iff _).2 ⟨1, by simp, one_ne_zero⟩) (by omega) 1 0).1
+    sqrtNorm_contract ((sqrtNorm_contract.pos_iff _).2 ⟨1, by simp, one_ne_zero⟩) (by omega) 1 0).1
   exact ⟨matvec A, A.f, sqrtNorm, [1, 0], 1, sqrtNorm_contract, hM, hH, hμ, ws, u, h,
     (ritz_bounds_eighExact (vstart := [1, 0]) sqrtNorm_contract hM hH (le_refl 1) hμ h).1⟩
 
